@@ -80,6 +80,12 @@ static uint64_t do_call(uint64_t ci) {
         const codec_t *c = &CODECS[kind];
         size_t n = gen_len(r, 300);
         if (rng_chance(r, 1, 200) && codec_is_adaptive(c)) n = 10001 + rng_below(r, 300);
+        if (c->param == -1 && codec_is_adaptive(c) && rng_chance(r, 1, 12)) {
+            /* the automatic selector's sampled analysis (> 10000 elements): counts that are and are not multiples of
+             * the sampling stride, and well past the threshold */
+            n = rng_chance(r, 1, 2) ? 10001 + rng_below(r, 3000) : 20000 + rng_below(r, 9000);
+            STAT_INC("c15_sampled_analysis_calls");
+        }
         int model = (int)rng_below(r, AM_NMODELS);
         uint64_t *a = malloc((n + 1) * 8);
         gen_array_model(r, model, a, n, (unsigned)c->elembits);
